@@ -2,7 +2,7 @@
     (/repo/container/iterable/map.go, translated on this run into
     Gen_imap.v) refine [n_delete] / [n_putval] of model/IMap.v.
 
-    Statement shape: on the GoLite heap [gheap pl mh] that represents the model
+    Statement shape: on the GoLite heap [gheap lg pl mh] that represents the model
     heap [mh] (IM_GenVocab.v) the generated function returns exactly the lifted
     result of the model function: [Ok] with the model's value and the heap of
     the model's new heap, [GoPanic] where the model says [Panic] (a nil
@@ -16,9 +16,9 @@ From GLGEN Require Import IM_GenVocab Gen_imap.
 Import ListNotations.
 Open Scope Z_scope.
 
-Theorem gen_delete_refines pl mh x : closed mh -> (x < length mh)%nat ->
-  Gen.rlItem_delete (ptr x) (gheap pl mh) =
-  lift (n_delete mh x) (fun r => Ok (optr (snd r), gheap pl (fst r))).
+Theorem gen_delete_refines lg pl mh x : closed mh -> (x < length mh)%nat ->
+  Gen.rlItem_delete (ptr x) (gheap lg pl mh) =
+  lift (n_delete mh x) (fun r => Ok (optr (snd r), gheap lg pl (fst r))).
 Proof.
   intros C Hx. pose proof (C x Hx) as [Cp Cn].
   unfold Gen.rlItem_delete, n_delete. im_run.
@@ -32,10 +32,10 @@ Qed.
 (* [new <> x]: putVal is handed an element other than its receiver (Add passes an
    element taken from the pool, which never holds the trailing element).  For
    rliNew == rli the order of the field assignments would matter. *)
-Theorem gen_putVal_refines pl mh x k v new : closed mh -> (x < length mh)%nat -> (new < length mh)%nat ->
+Theorem gen_putVal_refines lg pl mh x k v new : closed mh -> (x < length mh)%nat -> (new < length mh)%nat ->
   new <> x ->
-  Gen.rlItem_putVal (ptr x) k v (ptr new) (gheap pl mh) =
-  lift (n_putval mh x k v new) (fun r => Ok (ptr (snd r), gheap pl (fst r))).
+  Gen.rlItem_putVal (ptr x) k v (ptr new) (gheap lg pl mh) =
+  lift (n_putval mh x k v new) (fun r => Ok (ptr (snd r), gheap lg pl (fst r))).
 Proof.
   intros C Hx Hn Hne. assert (Hne' : x <> new) by congruence.
   unfold Gen.rlItem_putVal, n_putval.
